@@ -84,6 +84,7 @@ package parse
 //@   ensures[cursor] pOK(p) && (base(p.loops) == old(base(p.loops)) || fresh(base(p.loops))) && base(p.src) == old(base(p.src)) && off(p.src) >= old(off(p.src)) && off(p.src) + len(p.src) == old(off(p.src) + len(p.src))
 //@   ensures[success] implies(result1 == nil, len(p.loops) == old(len(p.loops)))
 //@   ensures[elems] implies(result1 == nil, forall(k, 0, len(result0), result0[k] != nil))
+//@   ensures[freshlist] implies(result1 == nil, isnil(base(result0)) || fresh(base(result0)))
 //@   ensures[consumed] implies(result1 == nil && (stop == t.IDCloseParen || stop == t.IDCloseBracket), len(p.src) < old(len(p.src)))
 //@   modifies *p, mem(p.loops)
 //@   loop 1 invariant pOK(p) && (base(p.loops) == old(base(p.loops)) || fresh(base(p.loops))) && base(p.src) == old(base(p.src)) && off(p.src) >= old(off(p.src)) && off(p.src) + len(p.src) == old(off(p.src) + len(p.src)) && len(p.loops) == old(len(p.loops)) && forall(k, 0, len(ret), ret[k] != nil) && (isnil(base(ret)) || fresh(base(ret)))
@@ -178,3 +179,146 @@ package parse
 //@   loop 1 invariant pOK(p) && (base(p.loops) == old(base(p.loops)) || fresh(base(p.loops))) && base(p.src) == old(base(p.src)) && off(p.src) >= old(off(p.src)) && off(p.src) + len(p.src) == old(off(p.src) + len(p.src)) && len(p.loops) == old(len(p.loops)) && len(p.src) < old(len(p.src)) && lhs != nil
 //@   loop 1 decreases len(p.src)
 
+//@ func (*parser).parseFile
+//@   prop C11
+//@   requires pOK(p)
+//@   ensures[cursor] pOK(p) && (base(p.loops) == old(base(p.loops)) || fresh(base(p.loops))) && base(p.src) == old(base(p.src)) && off(p.src) >= old(off(p.src)) && off(p.src) + len(p.src) == old(off(p.src) + len(p.src))
+//@   ensures[success] implies(result1 == nil, result0 != nil && len(p.loops) == old(len(p.loops)))
+//@   modifies *p, mem(p.loops)
+//@   loop 1 invariant pOK(p) && (base(p.loops) == old(base(p.loops)) || fresh(base(p.loops))) && base(p.src) == old(base(p.src)) && off(p.src) >= old(off(p.src)) && off(p.src) + len(p.src) == old(off(p.src) + len(p.src)) && len(p.loops) == old(len(p.loops)) && (isnil(base(topLevelDecls)) || fresh(base(topLevelDecls)))
+//@   loop 1 decreases len(p.src)
+
+//@ func (*parser).parseTopLevelDecl
+//@   prop C11
+//@   requires pOK(p) && len(p.src) > 0
+//@   ensures[cursor] pOK(p) && (base(p.loops) == old(base(p.loops)) || fresh(base(p.loops))) && base(p.src) == old(base(p.src)) && off(p.src) >= old(off(p.src)) && off(p.src) + len(p.src) == old(off(p.src) + len(p.src))
+//@   ensures[success] implies(result1 == nil, result0 != nil && len(p.src) < old(len(p.src)) && len(p.loops) == old(len(p.loops)))
+//@   modifies *p, mem(p.loops)
+//@   loop 1 invariant pOK(p) && (base(p.loops) == old(base(p.loops)) || fresh(base(p.loops))) && base(p.src) == old(base(p.src)) && off(p.src) >= old(off(p.src)) && off(p.src) + len(p.src) == old(off(p.src) + len(p.src)) && -1 <= rangeindex && rangeindex <= 0x800000000000 && len(p.src) < old(len(p.src)) && len(p.loops) == old(len(p.loops))
+
+//@ func (*parser).parseBlock
+//@   prop C11
+//@   requires pOK(p)
+//@   ensures[cursor] pOK(p) && (base(p.loops) == old(base(p.loops)) || fresh(base(p.loops))) && base(p.src) == old(base(p.src)) && off(p.src) >= old(off(p.src)) && off(p.src) + len(p.src) == old(off(p.src) + len(p.src))
+//@   ensures[success] implies(result1 == nil, len(p.src) < old(len(p.src)) && len(p.loops) == old(len(p.loops)))
+//@   ensures[elems] implies(result1 == nil, forall(k, 0, len(result0), result0[k] != nil))
+//@   modifies *p, mem(p.loops)
+//@   loop 1 invariant pOK(p) && (base(p.loops) == old(base(p.loops)) || fresh(base(p.loops))) && base(p.src) == old(base(p.src)) && off(p.src) >= old(off(p.src)) && off(p.src) + len(p.src) == old(off(p.src) + len(p.src)) && len(p.src) < old(len(p.src)) && len(p.loops) == old(len(p.loops)) && forall(k, 0, len(block), block[k] != nil) && (isnil(base(block)) || fresh(base(block)))
+//@   loop 1 decreases len(p.src)
+
+//@ func (*parser).assertsSorted
+//@   prop C11
+//@   pure
+//@   requires p != nil && forall(k, 0, len(asserts), asserts[k] != nil)
+//@   loop 1 invariant -1 <= rangeindex && rangeindex <= 0x800000000000
+
+//@ func (*parser).parseAssertNode
+//@   prop C11
+//@   requires pOK(p)
+//@   ensures[cursor] pOK(p) && (base(p.loops) == old(base(p.loops)) || fresh(base(p.loops))) && base(p.src) == old(base(p.src)) && off(p.src) >= old(off(p.src)) && off(p.src) + len(p.src) == old(off(p.src) + len(p.src))
+//@   ensures[success] implies(result1 == nil, result0 != nil && len(p.src) < old(len(p.src)) && len(p.loops) == old(len(p.loops)))
+//@   modifies *p, mem(p.loops)
+
+//@ func (*parser).parseStatement
+//@   prop C11
+//@   requires pOK(p)
+//@   ensures[cursor] pOK(p) && (base(p.loops) == old(base(p.loops)) || fresh(base(p.loops))) && base(p.src) == old(base(p.src)) && off(p.src) >= old(off(p.src)) && off(p.src) + len(p.src) == old(off(p.src) + len(p.src))
+//@   ensures[success] implies(result1 == nil, result0 != nil && len(p.loops) == old(len(p.loops)))
+//@   modifies *p, mem(p.loops)
+//@   loop 1 invariant pOK(p) && (base(p.loops) == old(base(p.loops)) || fresh(base(p.loops))) && base(p.src) == old(base(p.src)) && off(p.src) >= old(off(p.src)) && off(p.src) + len(p.src) == old(off(p.src) + len(p.src)) && -1 <= rangeindex && rangeindex <= 0x800000000000 && n != nil
+
+//@ func (*parser).parseStatement1
+//@   prop C11
+//@   requires pOK(p)
+//@   ensures[cursor] pOK(p) && (base(p.loops) == old(base(p.loops)) || fresh(base(p.loops))) && base(p.src) == old(base(p.src)) && off(p.src) >= old(off(p.src)) && off(p.src) + len(p.src) == old(off(p.src) + len(p.src))
+//@   ensures[success] implies(result1 == nil, result0 != nil && len(p.loops) == old(len(p.loops)))
+//@   modifies *p, mem(p.loops)
+//@   loop 1 invariant pOK(p) && (base(p.loops) == old(base(p.loops)) || fresh(base(p.loops))) && base(p.src) == old(base(p.src)) && off(p.src) >= old(off(p.src)) && off(p.src) + len(p.src) == old(off(p.src) + len(p.src)) && -1 <= i && i < len(p.loops)
+//@   loop 1 decreases i + 1
+
+//@ func (*parser).parseAssignNode
+//@   prop C11
+//@   requires pOK(p)
+//@   ensures[cursor] pOK(p) && (base(p.loops) == old(base(p.loops)) || fresh(base(p.loops))) && base(p.src) == old(base(p.src)) && off(p.src) >= old(off(p.src)) && off(p.src) + len(p.src) == old(off(p.src) + len(p.src))
+//@   ensures[success] implies(result1 == nil, result0 != nil && len(p.src) < old(len(p.src)) && len(p.loops) == old(len(p.loops)))
+//@   modifies *p, mem(p.loops)
+
+//@ func (*parser).parseIterateAssignNode
+//@   prop C11
+//@   requires pOK(p)
+//@   ensures[cursor] pOK(p) && (base(p.loops) == old(base(p.loops)) || fresh(base(p.loops))) && base(p.src) == old(base(p.src)) && off(p.src) >= old(off(p.src)) && off(p.src) + len(p.src) == old(off(p.src) + len(p.src))
+//@   ensures[success] implies(result1 == nil, result0 != nil && len(p.src) < old(len(p.src)) && len(p.loops) == old(len(p.loops)))
+//@   modifies *p, mem(p.loops)
+
+//@ func (*parser).parseAsserts
+//@   prop C11
+//@   requires pOK(p)
+//@   ensures[cursor] pOK(p) && (base(p.loops) == old(base(p.loops)) || fresh(base(p.loops))) && base(p.src) == old(base(p.src)) && off(p.src) >= old(off(p.src)) && off(p.src) + len(p.src) == old(off(p.src) + len(p.src))
+//@   ensures[success] implies(result1 == nil, len(p.loops) == old(len(p.loops)))
+//@   ensures[elems] implies(result1 == nil, forall(k, 0, len(result0), result0[k] != nil))
+//@   modifies *p, mem(p.loops)
+
+//@ func (*parser).parseIOManipNode
+//@   prop C11
+//@   requires pOK(p) && len(p.src) > 0
+//@   ensures[cursor] pOK(p) && (base(p.loops) == old(base(p.loops)) || fresh(base(p.loops))) && base(p.src) == old(base(p.src)) && off(p.src) >= old(off(p.src)) && off(p.src) + len(p.src) == old(off(p.src) + len(p.src))
+//@   ensures[success] implies(result1 == nil, result0 != nil && len(p.src) < old(len(p.src)) && len(p.loops) == old(len(p.loops)))
+//@   modifies *p, mem(p.loops)
+
+//@ func (*parser).parseIf
+//@   prop C11
+//@   requires pOK(p)
+//@   ensures[cursor] pOK(p) && (base(p.loops) == old(base(p.loops)) || fresh(base(p.loops))) && base(p.src) == old(base(p.src)) && off(p.src) >= old(off(p.src)) && off(p.src) + len(p.src) == old(off(p.src) + len(p.src))
+//@   ensures[success] implies(result1 == nil, result0 != nil && len(p.src) < old(len(p.src)) && len(p.loops) == old(len(p.loops)))
+//@   modifies *p, mem(p.loops)
+
+//@ func (*parser).parseIterateNode
+//@   prop C11
+//@   requires pOK(p)
+//@   ensures[cursor] pOK(p) && (base(p.loops) == old(base(p.loops)) || fresh(base(p.loops))) && base(p.src) == old(base(p.src)) && off(p.src) >= old(off(p.src)) && off(p.src) + len(p.src) == old(off(p.src) + len(p.src))
+//@   ensures[success] implies(result1 == nil, result0 != nil && len(p.src) < old(len(p.src)) && len(p.loops) == old(len(p.loops)))
+//@   modifies *p, mem(p.loops)
+
+//@ func (*parser).parseIterateBlock
+//@   prop C11
+//@   requires pOK(p) && forall(k, 0, len(assigns), assigns[k] != nil)
+//@   ensures[cursor] pOK(p) && (base(p.loops) == old(base(p.loops)) || fresh(base(p.loops))) && base(p.src) == old(base(p.src)) && off(p.src) >= old(off(p.src)) && off(p.src) + len(p.src) == old(off(p.src) + len(p.src))
+//@   ensures[success] implies(result1 == nil, result0 != nil && len(p.src) < old(len(p.src)) && len(p.loops) == old(len(p.loops)))
+//@   modifies *p, mem(p.loops)
+
+
+// String helpers.
+//@ func validConstName
+//@   prop C11
+//@   pure
+//@   loop 1 invariant 0 <= i && i <= len(s)
+//@   loop 1 decreases len(s) - i
+
+//@ func containsDoubleUnderscore
+//@   prop C11
+//@   pure
+//@   loop 1 invariant 1 <= i
+//@   loop 1 decreases len(s) - i
+
+//@ func isStatusMessage
+//@   prop C11
+//@   pure
+
+//@ func asSmallPositiveInt256
+//@   prop C11
+//@   pure
+//@   requires tm != nil
+//@   ensures 0 <= result && result <= 256 && implies(result != 0, id != 0)
+//@   loop 1 invariant 0 <= n && n <= 999 && len(s) <= 2 && implies(len(s) == 2, n <= 9) && implies(len(s) == 1, n <= 99)
+//@   loop 1 decreases len(s)
+
+// Entry points: for every token slice (and any options), no panic.
+//@ func Parse
+//@   prop C11
+//@   requires tm != nil
+//@   ensures implies(result1 == nil, result0 != nil)
+
+//@ func ParseExpr
+//@   prop C11
+//@   requires tm != nil
+//@   ensures implies(result1 == nil, result0 != nil)
